@@ -20,6 +20,9 @@ var c20Plants = []string{
 	"%v, %v = 1, 2, 3", "%v, %v = 1", "%v, %v = f()", "%v, %v = 1, 2", "%v = 1, 2", "%v, %v, %v = 1, %v",
 	// 8 local arity
 	"local p%d, q%d = 1, 2, 3", "local p%d, q%d = 1", "local p%d, q%d = f()", "local p%d, q%d = ...", "local p%d = 1, 2", "local p%d, q%d",
+	// 7 / 8 with a multi-valued expression that is not the last one
+	"local p%d, q%d, r%d = f(), 1", "local p%d, q%d, r%d = ..., 2", "%v, %v, %v = f(), 1", "%v, %v, %v = (f()), 2", "local p%d, q%d, r%d = %v + 1, 2",
+	"local p%d, q%d, r%d = 1, f()", "%v, %v, %v = 1, ...", "local p%d, q%d, r%d = f(), f()", "local p%d, q%d = (f())", "local p%d, q%d = -%v",
 	// 13 duplicate parameter
 	"local function f%d(a, b, a) return a end", "local function f%d(a, b, c) return a end", "local function f%d(a, a, a) return a end", "local function f%d(_, _) end",
 	"local g%d = function(x, y, x) end", "function M.m%d(self, self) end",
